@@ -58,8 +58,12 @@ func (p *iterPolicy) order(site, n int) []int {
 		}
 		return o
 	}
-	p.counter++
-	s := splitmix(p.Seed ^ p.counter*0x9E3779B97F4A7C15)
+	// stateless: a function of the policy, the range site and the number of keys - NOT of how many
+	// ranges the task has executed before.  A memo cache, a gate that sends work to another goroutine
+	// or an early exit changes how many ranges a task executes; with a running counter that shifted
+	// the orders of everything the task did afterwards, and results that legitimately follow the
+	// iteration order (LeafPaths ...) then differed between the sequential and the concurrent phase.
+	s := splitmix(p.Seed ^ uint64(site+1)*0x9E3779B97F4A7C15 ^ uint64(n)*0xD6E8FEB86659FD93)
 	o := make([]int, n)
 	for i := range o {
 		o[i] = i
